@@ -48,6 +48,19 @@ int keysnap_equal(const KeySnap *a, const KeySnap *b, int proto, char *why, size
 	return 1;
 }
 
+/* trust store = the real anchor followed by p->extra_roots unrelated roots */
+static void set_trust(TLS_CTX *ctx, const Plan *p, const CredSet *cs)
+{
+	static uint8_t buf[MAX_CHAIN + 8 * 800];
+	size_t len = cs->trust_len;
+	memcpy(buf, cs->trust, len);
+	if (p->extra_roots > 0) len += creds_extra_roots((int)p->extra_roots, buf + len, sizeof(buf) - len);
+	ctx->cacerts = malloc(len ? len : 1);
+	if (!ctx->cacerts) die("oom");
+	memcpy(ctx->cacerts, buf, len);
+	ctx->cacertslen = len;
+}
+
 static uint8_t *dupmem(const uint8_t *p, size_t n)
 {
 	uint8_t *q = malloc(n ? n : 1);
@@ -71,10 +84,7 @@ int ep_setup(Endpoint *ep, int side, Conn *c, const Plan *p, const CredSet *cs, 
 	if (tls_ctx_set_cipher_suites(&ep->ctx, suite, 1) != 1) return -1;
 
 	if (side == 0) {
-		if (!(p->cred_mode == 2 && p->proto == P_TLCP)) {
-			ep->ctx.cacerts = dupmem(cs->trust, cs->trust_len);
-			ep->ctx.cacertslen = cs->trust_len;
-		}
+		if (!(p->cred_mode == 2 && p->proto == P_TLCP)) set_trust(&ep->ctx, p, cs);
 		ep->ctx.verify_depth = TLS_DEFAULT_VERIFY_DEPTH;
 		if (p->mutual) {
 			ep->ctx.certs = dupmem(cs->cli_chain, cs->cli_chain_len);
@@ -87,8 +97,7 @@ int ep_setup(Endpoint *ep, int side, Conn *c, const Plan *p, const CredSet *cs, 
 		ep->ctx.signkey = cs->srv_sign.key;
 		if (cs->tlcp) ep->ctx.kenckey = cs->srv_enc.key;
 		if (p->mutual) {
-			ep->ctx.cacerts = dupmem(cs->trust, cs->trust_len);
-			ep->ctx.cacertslen = cs->trust_len;
+			set_trust(&ep->ctx, p, cs);
 			ep->ctx.verify_depth = TLS_DEFAULT_VERIFY_DEPTH;
 		}
 	}
